@@ -283,6 +283,21 @@ let parse_rcfg (s : string) : rcfg =
   | [u; x; h; t] -> { unsafe = (u = "1"); xhtml = (x = "1"); hardwraps = (h = "1"); talign = z_of_int (int_of_string t) }
   | _ -> failwith "rcfg"
 
+(* ---------- C17: table transformer ---------- *)
+let align_digit = function ALeft -> "1" | ARight -> "2" | ACenter -> "3" | ANone -> "4"
+let cell_str ((s, a) : seg option * align) =
+  (match s with None -> "-" | Some sg -> Printf.sprintf "%d:%d" (int_of_z sg.s_start) (int_of_z sg.s_stop)) ^ "/" ^ align_digit a
+let table_case (src : string) (lines : string) : string =
+  let b = bytes_of_hex src in
+  let ls = List.map (fun l -> match ints_of l ',' with [a; b; p] -> mk_seg a b p | _ -> failwith "seg") (split_on ';' lines) in
+  match tableTransform b ls with
+  | Panic -> "PANIC" | OutOfFuel -> "FUEL"
+  | Ok None -> "none"
+  | Ok (Some (kept, t)) ->
+    Printf.sprintf "%d|%s|%s|%s" (List.length kept) (String.concat "" (List.map align_digit t.t_aligns))
+      (String.concat "," (List.map cell_str t.t_header))
+      (String.concat ";" (List.map (fun r -> String.concat "," (List.map cell_str r)) t.t_rows))
+
 let eval (fn : string) (args : string list) : string =
   match fn, args with
   | "AstProg", [n; prog] -> let (_, _, o) = run_ast_prog (int_of_string n) prog in o
@@ -318,6 +333,7 @@ let eval (fn : string) (args : string list) : string =
     (match renderHTML (parse_rcfg cfg) (bytes_of_hex src) (parse_tree tree) with
      | Ok o -> hex_of_bytes o | Panic -> "PANIC" | OutOfFuel -> "FUEL")
   | "WfTree", [src; tree] -> s_of_bool (wf_tree (bytes_of_hex src) (parse_tree tree))
+  | "TableTransform", [src; lines] -> table_case src lines
   | "Prio", [role; d] -> prio_case role d
   | "IdsProg", [ops] -> ids_case ops
   | "Bufio", [size; limit; ops] -> bufio_case (int_of_string size) (int_of_string limit) ops
